@@ -124,6 +124,16 @@ def stage_cfgs(pid, tier, rng):
                             gen.append(C(inputs=[[1, 2]] if kind == "FMap" or par == 2 else [[1, 2, 3]], **base))
                     rnd.append(C(inputs=[[1, 2, 3, 4, 5]], **base))
                     rnd.append(C(inputs=[[1, 2, 3, 4, 5, 6]], **dict(base, gate=False)))
+            if kind in ("Map", "FMap"):
+                # Lift under parallel workers: only the panic / closure / no-leak clauses apply (PipeProps!Unspecified)
+                for par, fail in ((2, [1, 2]), (3, [1, 2, 3]), (3, [2, 3, 4]), (4, [1, 2, 3, 4])):
+                    for gate in (False, True):
+                        rnd.append(C(kind=kind, forked=True, par=par, cap=par % 2, mode="lift", inputs=[[1, 2, 3, 4]], fail=fail, gate=gate))
+                mc.append(C(kind=kind, forked=True, par=2, cap=0, mode="lift", inputs=[[1, 2, 3]], fail=[1, 2], gate=False))
+                if kind == "Map":
+                    if th:
+                        mc.append(C(kind=kind, forked=True, par=3, cap=1, mode="lift", inputs=[[1, 2, 3]], fail=[1, 2, 3], gate=False))
+                    gen.append(C(kind=kind, forked=True, par=3, cap=1, mode="lift", inputs=[[1, 2, 3]], fail=[1, 2, 3], gate=False))
     elif pid == "C10":
         for par in [1, 2, 3, 4]:
             for mono in ("sum", "prod", "max", "min", "and", "or"):
